@@ -32,7 +32,7 @@ ASSUMPTIONS = [
 ]
 
 DIMS = [d for d in [[2], [3], [5], [8], [2, 2], [2, 3], [3, 3], [4, 2], [4, 4], [2, 2, 2], [2, 3, 2], [3, 3, 3], [2, 2, 4], [4, 4, 4],
-                    [2, 2, 2, 2], [3, 2, 2, 3], [2, 3, 3, 2], [4, 4, 4, 4], [3, 3, 3, 3], [2, 2, 2, 2, 2]] if int(np.prod(d)) <= NMAX]
+                    [2, 2, 2, 2], [3, 2, 2, 3], [2, 3, 3, 2], [4, 4, 4, 4], [3, 3, 3, 3], [2, 2, 2, 2, 2], [2, 1, 2], [1, 3], [3, 1, 2], [2, 2, 1]] if int(np.prod(d)) <= NMAX]
 
 
 @st.composite
@@ -51,11 +51,19 @@ def sle_case(draw, method):
             r[i] = draw(st.integers(1, min(dims[i] * r[i + 1], 6)))
         c['ranks'] = r
     if gk == 'exact':
-        c['xranks'] = [1] + [draw(st.integers(1, 2)) for _ in range(d - 1)] + [1]
+        xr = [1] * (d + 1)
+        for i in range(d - 1, 0, -1):
+            xr[i] = draw(st.integers(1, min(2, dims[i] * xr[i + 1])))          # admissible from the right also across size-1 modes
+        c['xranks'] = xr
     if method == 'mals':
         c['threshold'] = draw(st.sampled_from([0, 1e-12, 1e-12]))
         c['max_rank'] = draw(st.sampled_from([None, None, None, 1, 2, 3]))
         c['max_rank_type'] = draw(st.sampled_from(['int', 'int', 'np.int64', 'np.int32']))
+    if method == 'als' and gk != 'exact':
+        # data with exact zeros: a zero right-hand side (the solution is the zero tensor), or a diagonal operator with a guess made of
+        # canonical unit vectors and a sparse right-hand side orthogonal to a direction the guess carries -- micro solutions then have
+        # exactly vanishing columns / rows.  (ALS only: a relative cut on an exactly zero block is outside the domain of MALS.)
+        c['structured'] = draw(st.sampled_from([None, None, None, None, 'zero_rhs', 'sparse']))
     if c['cplx'] and gk != 'exact' and draw(st.sampled_from([False, True])):
         c['dtype_mix'] = draw(st.sampled_from([[False, True, False], [False, False, True], [True, False, False], [False, True, True], [True, True, False]]))
     return c
@@ -110,6 +118,33 @@ def build_problem(c):
         else:
             ranks = c['ranks']
         g = TT(rnd_tt(ranks, cplx_guess))
+    if c.get('structured') == 'zero_rhs':
+        b = np.zeros(N, dtype=b.dtype)
+        xs = np.zeros(N, dtype=xs.dtype)
+        rhs = TT([np.zeros((1, dims[i], 1, 1), dtype=complex if cplx_rhs else float) for i in range(d)])
+    elif c.get('structured') == 'sparse' and d >= 2 and min(dims) >= 2:
+        dt = complex if cplx_all else float
+        lams = [rng.uniform(1.0, 2.0, n) for n in dims]
+        op = TT([np.diag(l).astype(dt).reshape(1, n, n, 1) for l, n in zip(lams, dims)])
+        A = dense.matrix(op.cores)
+        r = 2
+        gc = []
+        for i, n in enumerate(dims):
+            core = np.zeros((1 if i == 0 else r, n, 1, 1 if i == d - 1 else r), dtype=dt)
+            for k in range(r):
+                core[0 if i == 0 else k, k, 0, 0 if i == d - 1 else k] = 1.0
+            gc.append(core)
+        if cplx_all:
+            gc[0] = gc[0] * np.exp(0.3j)
+        g = TT(gc)
+        bc = []
+        for i, n in enumerate(dims):
+            v = rng.integers(0, 3, n).astype(dt)
+            v[0], v[1] = 1.0, 0.0                    # orthogonal to the second term of the guess
+            bc.append(v.reshape(1, n, 1, 1))
+        rhs = TT(bc)
+        b = dense.matrix(bc).reshape(-1)
+        xs = np.linalg.solve(A, b)
     sc = 10.0 ** c.get('scale_exp', 0)
     if sc != 1.0:
         # the solution is linear in the right-hand side: rescale rhs, exact solution and guess together
@@ -142,7 +177,14 @@ def body(c):
     e0 = energy_err(A, dense.matrix(g.cores).reshape(-1), xs)
     scale = float(np.sqrt(np.real(np.vdot(xs, A @ xs)))) + e0
     slack = 1e-8 * scale
-    lab = {c['method'], 'guess_' + c['guess'], c['solver'], 'op_' + c['op']}
+    lab = {c['method'], c['solver']}
+    structured = c.get('structured') if (c.get('structured') == 'zero_rhs' or (d >= 2 and min(dims) >= 2)) else None
+    if structured:
+        lab.add('data_with_exact_zeros:' + structured)
+    # (zero right-hand side: the iterates are 0 up to rounding noise relative to the guess they started from)
+    gn = float(np.linalg.norm(dense.matrix(g.cores))) if structured == 'zero_rhs' else 0.0
+    gkind = 'unit_vectors' if structured == 'sparse' else c['guess']          # (the sparse class brings its own guess)
+    lab |= {'guess_' + gkind, 'op_' + ('diagonal' if structured == 'sparse' else c['op'])}
     if c['cplx']:
         lab.add('complex')
         if c.get('dtype_mix') and c['guess'] != 'exact':
@@ -181,17 +223,17 @@ def body(c):
         for k in range(1, len(errs) - 1):
             require(errs[k + 1] <= errs[k] + slack, 'descent_in_sweeps',
                     'energy error grew from %.6e (%d sweeps) to %.6e (%d sweeps)' % (errs[k], k, errs[k + 1], k + 1))
-        if c['guess'] == 'exact':
+        if gkind == 'exact':
             require(errs[1] <= 1e-8 * scale, 'fixed_point', 'exact solution as guess: energy error %.3e after one sweep (scale %.3e)' % (errs[1], scale))
             require(errs[-1] <= 1e-8 * scale, 'fixed_point', 'exact solution as guess: energy error %.3e after %d sweeps' % (errs[-1], c['repeats']))
-        if c['guess'] == 'maximal':
+        if gkind == 'maximal':
             require(errs[1] <= 1e-8 * c['kappa'] * scale, 'exact_at_full_rank',
                     'maximal-rank guess: energy error %.3e after one sweep (scale %.3e)' % (errs[1], scale))
-        if c['guess'] in ('rank1', 'admissible') and c['repeats'] >= 2:
+        if gkind in ('rank1', 'admissible', 'unit_vectors') and c['repeats'] >= 2:
             lab.add('multi_sweep_lowrank')
         # calling again with the same arguments gives the same result (no hidden state between calls)
         again = dense.matrix(run(c, op, g, rhs, c['repeats'], c['solver']).cores).reshape(-1)
-        close(again, last, 1e-12, float(np.linalg.norm(last)) + 1e-300, 'repeatable', 'second call with identical arguments')
+        close(again, last, 1e-12, float(np.linalg.norm(last)) + gn + 1e-300, 'repeatable', 'second call with identical arguments')
         # both micro-solvers agree
         other = 'lu' if c['solver'] == 'solve' else 'solve'
         y = run(c, op, g, rhs, c['repeats'], other)
@@ -203,7 +245,7 @@ def body(c):
             require(float(np.sqrt(abs(np.vdot(dv, A @ dv)))) <= 1e-7 * scale, 'solve_lu_agree',
                     'solve vs lu differ by %.3e in the energy norm (scale %.3e)' % (float(np.sqrt(abs(np.vdot(dv, A @ dv)))), scale))
         else:
-            close(yv, last, 1e-7, float(np.linalg.norm(xs)) + float(np.linalg.norm(last)), 'solve_lu_agree', 'solve vs lu')
+            close(yv, last, 1e-7, float(np.linalg.norm(xs)) + float(np.linalg.norm(last)) + gn, 'solve_lu_agree', 'solve vs lu')
     if c.get('ranks') and any(c['ranks'][i + 1] > c['ranks'][i] * dims[i] for i in range(d)):
         lab.add('left_overparam')
     return lab
